@@ -461,6 +461,7 @@ def step (s : DState) (line : String) : DState × String :=
     | some t => (s, JsonProto.restoreText t)
     | none => bad s line
   | ["pkg.raw", _] => (s, "raw")
+  | "judge.C10r" :: ty :: v :: out => (s, if joinWith " " out == "ok " ++ v then "J C10 ok" else "J C10 bad own-encoding-round-trip " ++ ty)
   | "judge.C17" :: ty :: v :: out => (s, if joinWith " " out == "ok " ++ v then "J C17 ok" else "J C17 bad json-round-trip " ++ ty)
   | "judge.C09" :: orig :: fhex :: out =>
     /- a restore may succeed only if the (damaged) text still is a package with the supported version
@@ -481,7 +482,15 @@ def step (s : DState) (line : String) : DState × String :=
              else "J C09 ok")
       | "restored" :: "err" :: _ => "J C09 ok"
       | _ => "J C09 bad " ++ joinWith " " out)
-  | ["read", _] => (s, "read")
+  -- read-only calls whose result is a serialized form: what the level's OWN text / JSON / package decodes to
+  -- (rebuilt through the snapshot for the snapshot roads, by re-adding the listing for Display and serde)
+  | ["read", k] =>
+    if k == "snapshot" || k == "package" || k == "json" then
+      (s, "read " ++ JsonProto.levelContent (Level.fromSnapshot s.lvl.snapshot))
+    else if k == "display" || k == "serde" then
+      (s, "read " ++ JsonProto.levelContent (Level.fromOrders s.lvl.price s.lvl.listing))
+    else (s, "read")
+  | ["big", _, _] => (s, "big")     -- size probes are judged on the implementation alone (re-encode = encode, nothing lost)
   | ["v5", ns, c] =>
     -- the id (as a 128-bit number) a generator over namespace `ns` returns for counter value `c`
     (match ns.toNat?, c.toNat? with
